@@ -49,6 +49,15 @@ def run_case(case):
 
 def shrink(case):
     p = case['prog']
+    if p.get('phase2'):
+        c = json.loads(json.dumps(case))
+        del c['prog']['phase2']
+        yield c
+        if len(p['phase2']['callers']) > 1:
+            for i in range(len(p['phase2']['callers'])):
+                c = json.loads(json.dumps(case))
+                del c['prog']['phase2']['callers'][i]
+                yield c
     if len(p['callers']) > 1:
         for i in range(len(p['callers'])):
             c = json.loads(json.dumps(case))
